@@ -1,6 +1,8 @@
 import IweModel.Props.C13
 #print axioms Iwe.C13.inline_range_exact_partial
 #print axioms Iwe.C13.to_inline_range_exact_partial
+#print axioms Iwe.C13.line_exact_partial
+#print axioms Iwe.C13.block_start_line_exact_partial
 #print axioms Iwe.C13.link_hit_iff
 #print axioms Iwe.C13.line_range_covers_block
 #print axioms Iwe.C13.key_range_is_destination_partial
